@@ -892,18 +892,25 @@ namespace {
 template<class T, class = void> struct HasIdMaps : std::false_type {};
 template<class T> struct HasIdMaps<T, std::void_t<decltype(std::declval<T &>().mMappingIdMap.size()), decltype(std::declval<T &>().mConnectionIdMap.size())>> : std::true_type {};
 
-template<int N>
+template<class T, class = void> struct HasRawList : std::false_type {};
+template<class T> struct HasRawList<T, std::void_t<decltype(std::declval<T &>().mEquivalentVariables.size()), decltype(std::declval<T &>().mEquivalentVariables.begin()->lock())>> : std::true_type {};
+
+// N variables.  LEAN = reduced alphabet (no 4-argument add, no connection ids, id operations on unordered pairs) so that
+// five variables stay explorable; the full alphabet is used for three and four.
+template<int N, bool LEAN = false>
 struct IdWorld
 {
-    enum Kind { ADD, ADD_IDS, REMOVE, REMOVE_ALL, SET_MID, SET_CID, RM_MID, RM_CID };
+    enum Kind { ADD, ADD_IDS, REMOVE, REMOVE_ALL, SET_MID, SET_CID, RM_MID, RM_CID, DESTROY };
     struct Op { Kind k; int i, j; };
     static const std::vector<Op> &ops()
     {
         static std::vector<Op> o = [] {
             std::vector<Op> r;
-            for (int i = 0; i < N; ++i) for (int j = i + 1; j < N; ++j) { r.push_back({ADD, i, j}); r.push_back({ADD_IDS, i, j}); r.push_back({REMOVE, i, j}); }
+            for (int i = 0; i < N; ++i) for (int j = i + 1; j < N; ++j) { r.push_back({ADD, i, j}); if (!LEAN) r.push_back({ADD_IDS, i, j}); r.push_back({REMOVE, i, j}); }
             for (int i = 0; i < N; ++i) r.push_back({REMOVE_ALL, i, i});
-            for (Kind k : {SET_MID, SET_CID, RM_MID, RM_CID}) for (int i = 0; i < N; ++i) for (int j = 0; j < N; ++j) if (i != j) r.push_back({k, i, j});
+            if (LEAN) { for (Kind k : {SET_MID, RM_MID}) for (int i = 0; i < N; ++i) for (int j = i + 1; j < N; ++j) r.push_back({k, i, j}); }
+            else for (Kind k : {SET_MID, SET_CID, RM_MID, RM_CID}) for (int i = 0; i < N; ++i) for (int j = 0; j < N; ++j) if (i != j) r.push_back({k, i, j});
+            for (int i = 0; i < N; ++i) r.push_back({DESTROY, i, i}); // appended last: earlier operation numbers stay valid
             return r;
         }();
         return o;
@@ -919,6 +926,7 @@ struct IdWorld
         case SET_CID: return "setEquivalenceConnectionId";
         case RM_MID: return "removeEquivalenceMappingId";
         case RM_CID: return "removeEquivalenceConnectionId";
+        case DESTROY: return "destroy";
         }
         return "?";
     }
@@ -928,7 +936,7 @@ struct IdWorld
         const Op &o = ops()[op];
         std::string s = kindName(o.k);
         s += "(v" + std::to_string(o.i);
-        if (o.k != REMOVE_ALL) s += ",v" + std::to_string(o.j);
+        if (o.k != REMOVE_ALL && o.k != DESTROY) s += ",v" + std::to_string(o.j);
         if (o.k == ADD_IDS) s += ",\"m\",\"c\"";
         if (o.k == SET_MID) s += ",\"x\"";
         if (o.k == SET_CID) s += ",\"y\"";
@@ -937,13 +945,15 @@ struct IdWorld
 
     // ---- real objects: one variable per component (a connection id belongs to a component pair), flat siblings
     ModelPtr m;
-    std::vector<VariablePtr> v;
-    // ---- reference: direct edges + identifiers as decorations of unordered pairs
+    std::vector<ComponentPtr> comps;
+    std::vector<VariablePtr> v; // null once destroyed: the harness held the last reference
+    // ---- reference: live variables, direct edges + identifiers as decorations of unordered pairs
+    bool alive[N];
     bool edge[N][N] = {};
     std::string mid[N][N], cid[N][N];
     std::string lastOp = "initial";
     std::string lastRelation = "none";
-    std::string lastClass = "nothing"; // edge-addition | edge-removal | id-operation: the class of the last operation (part of the signature)
+    std::string lastClass = "nothing"; // edge-addition | edge-removal | id-operation | destruction: class of the last operation (part of the signature)
 
     IdWorld()
     {
@@ -955,10 +965,17 @@ struct IdWorld
             x->setInterfaceType("public");
             c->addVariable(x);
             m->addComponent(c);
+            comps.push_back(c);
             v.push_back(x);
+            alive[i] = true;
         }
     }
-    bool enabled(int) { return true; }
+    // pruned by the reference state only: nothing can be done with a variable that no longer exists
+    bool enabled(int op)
+    {
+        const Op &o = ops()[op];
+        return alive[o.i] && alive[o.j];
+    }
     UF refClasses() const
     {
         UF uf(N);
@@ -978,8 +995,8 @@ struct IdWorld
         int i = o.i, j = o.j;
         UF before = refClasses();
         lastOp = kindName(o.k);
-        lastClass = (o.k == ADD || o.k == ADD_IDS) ? "edge-addition" : (o.k == REMOVE || o.k == REMOVE_ALL) ? "edge-removal" : "id-operation";
-        lastRelation = o.k == REMOVE_ALL ? "variable" : edge[i][j] ? "direct-pair" : before.same(i, j) ? "indirect-pair" : "unconnected-pair";
+        lastClass = (o.k == ADD || o.k == ADD_IDS) ? "edge-addition" : (o.k == REMOVE || o.k == REMOVE_ALL) ? "edge-removal" : o.k == DESTROY ? "destruction" : "id-operation";
+        lastRelation = (o.k == REMOVE_ALL || o.k == DESTROY) ? "variable" : edge[i][j] ? "direct-pair" : before.same(i, j) ? "indirect-pair" : "unconnected-pair";
         switch (o.k) {
         case ADD:
             Variable::addEquivalence(v[i], v[j]);
@@ -1017,19 +1034,45 @@ struct IdWorld
             Variable::removeEquivalenceConnectionId(v[i], v[j]);
             if (before.same(i, j)) setRef(cid, i, j, "");
             break;
+        case DESTROY:
+            // removed from its component and the last reference dropped: the variable leaves the universe, its equivalences
+            // with it; the neighbours keep an expired entry in their raw lists
+            comps[i]->removeVariable(v[i]);
+            v[i].reset();
+            alive[i] = false;
+            for (int k = 0; k < N; ++k) { edge[i][k] = edge[k][i] = false; setRef(mid, i, k, ""); setRef(cid, i, k, ""); }
+            clearDisconnected();
+            break;
         }
     }
-    // hidden entries of the id maps (auxiliary: part of the state key only, so that stale entries are explored, never judged)
-    template<class Impl> static std::string hidden(Impl *p, const std::vector<VariablePtr> &vars)
+    int indexOf(const VariablePtr &w) const
+    {
+        for (int q = 0; q < N; ++q) if (v[q] && v[q] == w) return q;
+        return -1;
+    }
+    // hidden state (auxiliary: part of the state key only, so that stale id entries and expired list slots at every
+    // position are explored as distinct states; never judged)
+    template<class Impl> std::string hidden(Impl *p) const
     {
         std::string s;
         if constexpr (HasIdMaps<Impl>::value) {
-            for (size_t k = 0; k < vars.size(); ++k) {
-                auto a = p->mMappingIdMap.find(vars[k]);
-                auto b = p->mConnectionIdMap.find(vars[k]);
+            for (int k = 0; k < N; ++k) {
+                if (!v[k]) { s += "."; continue; }
+                auto a = p->mMappingIdMap.find(v[k]);
+                auto b = p->mConnectionIdMap.find(v[k]);
                 s += a == p->mMappingIdMap.end() ? "-" : "[" + a->second + "]";
                 s += b == p->mConnectionIdMap.end() ? "-" : "[" + b->second + "]";
             }
+            // entries about destroyed variables
+            size_t stale = 0;
+            for (auto &e : p->mMappingIdMap) stale += e.first.expired();
+            for (auto &e : p->mConnectionIdMap) stale += e.first.expired();
+            if (stale) s += "+" + std::to_string(stale) + "dead";
+        }
+        if constexpr (HasRawList<Impl>::value) {
+            s += " raw<";
+            for (auto &w : p->mEquivalentVariables) { auto sp = w.lock(); s += sp ? std::to_string(indexOf(sp)) : std::string("X"); }
+            s += ">";
         }
         return s;
     }
@@ -1037,68 +1080,85 @@ struct IdWorld
     {
         std::string s;
         for (int i = 0; i < N; ++i) {
+            if (!v[i]) { s += "v" + std::to_string(i) + " destroyed;"; continue; }
             std::vector<int> nb;
-            for (size_t e = 0; e < v[i]->equivalentVariableCount(); ++e) {
-                auto w = v[i]->equivalentVariable(e);
-                int k = -1;
-                for (int q = 0; q < N; ++q) if (v[q] == w) k = q;
-                nb.push_back(k);
-            }
+            for (size_t e = 0; e < v[i]->equivalentVariableCount(); ++e) nb.push_back(indexOf(v[i]->equivalentVariable(e)));
             std::sort(nb.begin(), nb.end());
             s += "v" + std::to_string(i) + "{";
             for (int k : nb) s += std::to_string(k) + " ";
             s += "}";
-            for (int j = 0; j < N; ++j) if (i != j) s += "(" + Variable::equivalenceMappingId(v[i], v[j]) + "|" + Variable::equivalenceConnectionId(v[i], v[j]) + ")";
-            s += "h:" + hidden(v[i]->pFunc(), v) + ";";
+            for (int j = 0; j < N; ++j) if (i != j && v[j]) s += "(" + Variable::equivalenceMappingId(v[i], v[j]) + "|" + Variable::equivalenceConnectionId(v[i], v[j]) + ")";
+            s += "h:" + hidden(v[i]->pFunc()) + ";";
         }
         return s;
     }
     json refJson() const
     {
-        json e = json::array(), ids = json::array();
+        json e = json::array(), ids = json::array(), dead = json::array();
+        for (int i = 0; i < N; ++i) if (!alive[i]) dead.push_back(i);
         for (int i = 0; i < N; ++i) for (int j = i + 1; j < N; ++j) {
             if (edge[i][j]) e.push_back({i, j});
             if (!mid[i][j].empty() || !cid[i][j].empty()) ids.push_back({{"pair", {i, j}}, {"mapping", mid[i][j]}, {"connection", cid[i][j]}});
         }
-        return {{"edges", e}, {"ids", ids}};
+        return {{"edges", e}, {"ids", ids}, {"destroyed", dead}};
     }
-    // the full oracle, evaluated in every reached state
+    // the full oracle, evaluated in every reached state, over the live variables
     void invariant(std::vector<Viol> &out)
     {
         std::set<std::string> seen;
+        bool anyDead = false;
+        for (int i = 0; i < N; ++i) anyDead = anyDead || !alive[i];
         auto add = [&](const std::string &sig, json d) {
             if (!seen.insert(sig).second) return;
             d["reference"] = refJson();
             d["last_operation_on"] = lastRelation;
             d["last_operation"] = lastOp;
-            out.push_back({sig + ":after-" + lastClass, d});
+            out.push_back({sig + ":after-" + lastClass + (anyDead ? ":a-variable-was-destroyed" : ""), d});
         };
-        // 1. the public neighbour lists are the reference's direct edges (identifier operations never touch them)
-        bool closed = true;
-        UF uf = reachability(v, &closed);
+        for (int i = 0; i < N; ++i) if (alive[i] != (v[i] != nullptr)) { add("harness:history:liveness-bookkeeping", {{"variable", i}}); return; }
+        // 1. the public neighbour lists: exactly the reference's direct edges among live variables, hence symmetric
+        //    (a lists b <=> b lists a), no destroyed or unknown variable listed, nothing listed twice
+        bool listed[N][N] = {};
         for (int i = 0; i < N; ++i) {
-            std::set<int> nb;
-            for (size_t e = 0; e < v[i]->equivalentVariableCount(); ++e) { auto w = v[i]->equivalentVariable(e); for (int q = 0; q < N; ++q) if (v[q] == w) nb.insert(q); }
-            for (int j = 0; j < N; ++j) if (i != j && (nb.count(j) > 0) != edge[i][j]) add("history:equivalentVariable-lists-differ-from-the-edges-added-and-removed", {{"variable", i}, {"other", j}, {"listed", nb.count(j) > 0}});
+            if (!alive[i]) continue;
+            for (size_t e = 0; e < v[i]->equivalentVariableCount(); ++e) {
+                auto w = v[i]->equivalentVariable(e);
+                int q = indexOf(w);
+                if (q < 0) { add("history:equivalentVariable-lists-a-variable-outside-the-universe", {{"variable", i}, {"position", e}, {"null", w == nullptr}}); continue; }
+                if (listed[i][q]) add("history:equivalentVariable-lists-a-variable-twice", {{"variable", i}, {"other", q}});
+                listed[i][q] = true;
+            }
         }
-        // 2. both query functions against reachability over the lists, every ordered pair, twice, on a fresh analysis
-        auto a = Analyser::create();
-        a->analyseModel(m);
-        auto am = a->model();
-        for (int rep = 0; rep < 2; ++rep) for (int i = 0; i < N; ++i) for (int j = 0; j < N; ++j) {
-            bool linked = i != j && uf.same(i, j);
-            bool h = v[i]->hasEquivalentVariable(v[j], true);
-            bool q = am->areEquivalentVariables(v[i], v[j]);
-            if (i != j && h != linked) add(std::string("history:hasEquivalentVariable:") + (h ? "got-true-expected-false" : "got-false-expected-true"), {{"x", i}, {"y", j}, {"repetition", rep}});
-            if (q != (i == j || linked)) add(std::string("history:areEquivalentVariables:") + (q ? "got-true-expected-false" : "got-false-expected-true") + (i == j ? ":same-variable" : ""), {{"x", i}, {"y", j}, {"repetition", rep}});
+        for (int i = 0; i < N; ++i) for (int j = 0; j < N; ++j) {
+            if (i == j || !alive[i] || !alive[j]) continue;
+            if (listed[i][j] != listed[j][i] && i < j) add("history:equivalentVariable-lists-are-one-sided", {{"a", i}, {"b", j}, {"a_lists_b", listed[i][j]}, {"b_lists_a", listed[j][i]}});
+            if (listed[i][j] != edge[i][j]) add("history:equivalentVariable-lists-differ-from-the-edges-added-and-removed", {{"variable", i}, {"other", j}, {"listed", listed[i][j]}});
+            bool hd = v[i]->hasEquivalentVariable(v[j], false);
+            if (hd != edge[i][j]) add(std::string("history:hasEquivalentVariable-direct:") + (hd ? "got-true-expected-false" : "got-false-expected-true"), {{"x", i}, {"y", j}});
+        }
+        // 2. both query functions against reachability over the live edges: every ordered pair, twice; the analyser model
+        //    (whose cache keeps the first answer of a pair) on two fresh analyses, asked in opposite orders
+        UF ref = refClasses();
+        for (int pass = 0; pass < 2; ++pass) {
+            auto a = Analyser::create();
+            a->analyseModel(m);
+            auto am = a->model();
+            for (int rep = 0; rep < 2; ++rep) for (int ii = 0; ii < N; ++ii) for (int jj = 0; jj < N; ++jj) {
+                int i = pass ? N - 1 - ii : ii, j = pass ? N - 1 - jj : jj;
+                if (!alive[i] || !alive[j]) continue;
+                bool linked = i != j && ref.same(i, j);
+                bool h = v[i]->hasEquivalentVariable(v[j], true);
+                bool q = am->areEquivalentVariables(v[i], v[j]);
+                if (i != j && h != linked) add(std::string("history:hasEquivalentVariable:") + (h ? "got-true-expected-false" : "got-false-expected-true"), {{"x", i}, {"y", j}, {"repetition", rep}});
+                if (q != (i == j || linked)) add(std::string("history:areEquivalentVariables:") + (q ? "got-true-expected-false" : "got-false-expected-true") + (i == j ? ":same-variable" : ""), {{"x", i}, {"y", j}, {"repetition", rep}, {"asked", pass ? "in-reverse-order" : "in-lexicographic-order"}});
+            }
         }
         // 3. the identifier getters: "" for a pair that is not linked; otherwise the decoration last given to the pair
-        UF ref = refClasses();
         for (int i = 0; i < N; ++i) for (int j = 0; j < N; ++j) {
-            if (i == j) continue;
+            if (i == j || !alive[i] || !alive[j]) continue;
             std::string gm = Variable::equivalenceMappingId(v[i], v[j]), gc = Variable::equivalenceConnectionId(v[i], v[j]);
             const char *rel = edge[i][j] ? "direct-pair" : ref.same(i, j) ? "indirect-pair" : "unconnected-pair";
-            if (!uf.same(i, j)) {
+            if (!ref.same(i, j)) {
                 if (!gm.empty()) add("history:equivalenceMappingId:pair-that-is-not-linked-has-an-id", {{"x", i}, {"y", j}, {"got", gm}});
                 if (!gc.empty()) add("history:equivalenceConnectionId:pair-that-is-not-linked-has-an-id", {{"x", i}, {"y", j}, {"got", gc}});
                 continue;
@@ -1121,6 +1181,7 @@ int main(int argc, char **argv)
         // {maxDepth, maxStates} for the quick and the thorough tier (VERIF_TIER); --depth=N overrides
         machineFamily<IdWorld<3>>("ids3", ExploreLimits{6, 2000000}, ExploreLimits{8, 2000000}),
         machineFamily<IdWorld<4>>("ids4", ExploreLimits{4, 2000000}, ExploreLimits{5, 2000000}),
+        machineFamily<IdWorld<5, true>>("life5", ExploreLimits{4, 2000000}, ExploreLimits{5, 2000000}),
         {"selfcheck", [] { return uint64_t(SELF.size()); }, runSelf, [](uint64_t i) { return json{{"word_bits", SELF.at(i).W}, {"base", hex(SELF.at(i).B)}, {"bytes", SELF.at(i).S}}; }},
     };
 #ifdef C18_PLACEMENT
